@@ -86,7 +86,7 @@ def schema_table(tier: str) -> Dict[str, List[SC.Schema]]:
     return {
         "linear": SC.linear_schemas(tier, None),
         "linear_readout": SC.linear_schemas(tier, None, fn="linear_readout"),
-        "matmul": SC.matmul_schemas(tier, None),
+        "matmul": [s_ for s_ in SC.matmul_schemas(tier, None) if s_.note != "mixed-rank"],  # exact clause: equal batch dims
         "conv1d": SC.conv1d_schemas(tier, None),
         "add": SC.add_schemas(tier, None),
         "embedding": SC.embedding_schemas(tier),
